@@ -69,8 +69,9 @@ func (h HTTPConv) Do(ctx context.Context, req http.RequestGetter, opt conv.Optio
 	if h.proto != meta.EncodingThriftBinary {
 		panic("now only support binary protocol")
 	}
+	// (set before the converter is made: the native state machine takes its flags from the options at construction)
+	opt.EnableHttpMapping = true
 	cv := NewBinaryConv(opt)
-	cv.opts.EnableHttpMapping = true
 	// dealing with http request
 	jbytes := req.GetBody()
 	// manage buffer
@@ -97,8 +98,9 @@ func (h HTTPConv) DoInto(ctx context.Context, req http.RequestGetter, buf *[]byt
 	if h.proto != meta.EncodingThriftBinary {
 		panic("now only support binary protocol")
 	}
+	// (set before the converter is made: the native state machine takes its flags from the options at construction)
+	opt.EnableHttpMapping = true
 	cv := NewBinaryConv(opt)
-	cv.opts.EnableHttpMapping = true
 	// dealing with http request
 	jbytes := req.GetBody()
 	// write message header
